@@ -70,9 +70,8 @@ def _g1(run, M, alg, base):
                       "A * B builds %s; expected Compose([self, input]) (apply B, then A)" % _d(o.ret), stmt="G1:mul-linop")
         elif sca.key() in cs:
             seen["scalar"] = True
-            ok = _is_prim(o.ret, "Compose") and len(o.ret.args["linops"]) == 2 and o.ret.args["linops"][0] is me and \
-                _is_prim(o.ret.args["linops"][1], "Multiply") and val_eq(o.ret.args["linops"][1].args["ishape"], me.ishape) and \
-                val_eq(o.ret.args["linops"][1].args["mult"], x)
+            parts = o.ret.parts if isinstance(o.ret, LV) and o.ret.kind == "compose" else (o.ret.args["linops"] if _is_prim(o.ret, "Compose") else ())
+            ok = len(parts) == 2 and parts[0] is me and _is_prim(parts[1], "Multiply") and val_eq(parts[1].args["ishape"], me.ishape) and val_eq(parts[1].args["mult"], x)
             run.check(ok, "G1", "Linop.__mul__ (scalar operand)", f.loc(), "A * a -> Compose([A, Multiply(A.ishape, a)])",
                       "A * a builds %s; expected Compose([self, Multiply(self.ishape, a)])" % _d(o.ret), stmt="G1:mul-scalar")
         elif any("ndarray" in T.show(c) for c in o.conds if "not(" not in T.show(c)[:4]) and isinstance(o.ret, T.Poly) and "NotImplemented" not in T.show(o.ret):
@@ -86,9 +85,9 @@ def _g1(run, M, alg, base):
             run.bad("G1", "Linop.__mul__ (%s operand)" % k, f.loc(), "no returning path of __mul__ handles a %s operand" % k, stmt="G1:mul-missing-" + k)
     f = meth("__rmul__")
     outs = [o for o in alg.vn(f).run(f.body, State({"self": me, "input": x})) if o.status == "return" and sca.key() in [c.key() for c in o.conds]]
-    ok = len(outs) == 1 and _is_prim(outs[0].ret, "Compose") and len(outs[0].ret.args["linops"]) == 2 and outs[0].ret.args["linops"][1] is me \
-        and _is_prim(outs[0].ret.args["linops"][0], "Multiply") and val_eq(outs[0].ret.args["linops"][0].args["ishape"], me.oshape) \
-        and val_eq(outs[0].ret.args["linops"][0].args["mult"], x)
+    r0 = outs[0].ret if len(outs) == 1 else None
+    parts = r0.parts if isinstance(r0, LV) and r0.kind == "compose" else (r0.args["linops"] if _is_prim(r0, "Compose") else ())
+    ok = len(parts) == 2 and parts[1] is me and _is_prim(parts[0], "Multiply") and val_eq(parts[0].args["ishape"], me.oshape) and val_eq(parts[0].args["mult"], x)
     run.check(ok, "G1", "Linop.__rmul__", f.loc(), "a * A -> Compose([Multiply(A.oshape, a), A])",
               "a * A builds %s; expected Compose([Multiply(self.oshape, a), self])" % (_d(outs[0].ret) if outs else "nothing"), stmt="G1:rmul")
     f = meth("__add__")
